@@ -244,7 +244,99 @@ def showResult {α} (f : α → String) : Except Err α → String
   | .ok x => "ok " ++ f x
   | .error e => showErr e
 
+/-! ### parsing a prost `View` (crafted / legacy messages) -/
+
+def pPTarget : P PRefTarget := fun ts => do
+  let (t, r) ← tok ts
+  if t = "none" then some (none, r)
+  else if t = "cid" then do
+    let (b, r) ← pBytes r
+    some (some (.commitId b), r)
+  else if t = "cl" then do
+    let (rs, r) ← counted pBytes r
+    let (as, r) ← counted pBytes r
+    some (some (.conflictLegacy rs as), r)
+  else if t = "c" then do
+    let (rs, r) ← counted pTerm r
+    let (as, r) ← counted pTerm r
+    some (some (.conflict rs as), r)
+  else none
+
+def pOptInt : P (Option Int) := fun ts => do
+  let (t, r) ← tok ts
+  if t = "none" then some (none, r)
+  else if t.startsWith "some:" then do
+    let n ← (t.drop 5).toString.toInt?
+    some (some n, r)
+  else none
+
+def pPRemoteBookmark : P PRemoteBookmark := fun ts => do
+  let (n, r) ← pBytes ts
+  let (t, r) ← pPTarget r
+  let (s, r) ← pOptInt r
+  some (⟨n, t, s⟩, r)
+
+def pPBookmark : P PBookmark := fun ts => do
+  let (n, r) ← pBytes ts
+  let (t, r) ← pPTarget r
+  let (rbs, r) ← counted pPRemoteBookmark r
+  some (⟨n, t, rbs⟩, r)
+
+def pPNamedTarget : P PNamedTarget := fun ts => do
+  let (n, r) ← pBytes ts
+  let (t, r) ← pPTarget r
+  some (⟨n, t⟩, r)
+
+def pPRemoteRef : P PRemoteRef := fun ts => do
+  let (n, r) ← pBytes ts
+  let (terms, r) ← counted pTerm r
+  let (s, r) ← pInt r
+  some (⟨n, terms, s⟩, r)
+
+def pPRemoteView : P PRemoteView := fun ts => do
+  let (n, r) ← pBytes ts
+  let (_, r) ← lit "b" r
+  let (b, r) ← counted pPRemoteRef r
+  let (_, r) ← lit "t" r
+  let (t, r) ← counted pPRemoteRef r
+  some (⟨n, b, t⟩, r)
+
+def pPGitRef : P PGitRef := fun ts => do
+  let (n, r) ← pBytes ts
+  let (c, r) ← pBytes r
+  let (t, r) ← pPTarget r
+  some (⟨n, c, t⟩, r)
+
+def pPView : P PView := fun ts => do
+  let (_, r) ← lit "h" ts
+  let (h, r) ← counted pBytes r
+  let (_, r) ← lit "wc1" r
+  let (wc1, r) ← pBytes r
+  let (_, r) ← lit "wcs" r
+  let (wcs, r) ← counted (pNamed pBytes) r
+  let (_, r) ← lit "bm" r
+  let (bm, r) ← counted pPBookmark r
+  let (_, r) ← lit "lt" r
+  let (lt, r) ← counted pPNamedTarget r
+  let (_, r) ← lit "rv" r
+  let (rv, r) ← counted pPRemoteView r
+  let (_, r) ← lit "gr" r
+  let (gr, r) ← counted pPGitRef r
+  let (_, r) ← lit "ghl" r
+  let (ghl, r) ← pBytes r
+  let (_, r) ← lit "gh" r
+  let (gh, r) ← pPTarget r
+  let (_, r) ← lit "mig" r
+  let (mig, r) ← pBool r
+  let (_, r) ← lit "ghs" r
+  let (ghs, r) ← counted pPNamedTarget r
+  some (⟨h, wc1, wcs, bm, lt, rv, gr, ghl, gh, mig, ghs⟩, r)
+
 def handle : List String → Option String
+  | "pview" :: rest => do
+    let (p, r) ← pPView rest
+    if !r.isEmpty then none
+    else some (showResult showView (viewFromProto p))
   | "view" :: rest => do
     let (v, r) ← pView rest
     if !r.isEmpty then none
